@@ -11,6 +11,7 @@ import ipaddress
 
 from .. import rig  # noqa: F401
 from .. import ber, typecontracts
+from . import trapview
 from puresnmp.types import Counter, Counter64, Gauge, IpAddress, Opaque, TimeTicks
 import x690
 from x690.types import Integer, OctetString
@@ -374,6 +375,9 @@ def run(R):
                 break
             R.mon["ip_textlike_checked"] += len(alphabet) ** 2
             R.evaluations += len(alphabet) ** 2
+    if R.shard == 0:
+        trap_uptimes(R)
+        copies(R)
     if R.shard == 1 % R.nshards:
         thread_stress(R)
     if R.shard == 2 % R.nshards:
@@ -389,9 +393,77 @@ def run(R):
         c.detach()
 
 
+def trap_uptimes(R):
+    """sysUpTime of a received notification as TrapInfo.uptime shows it: the same TimeTicks
+    conversion, over the whole range (the upper half of it included)."""
+    pts = set()
+    for k in range(0, 33):
+        for d in (-1, 0, 1):
+            pts.add(max(0, min((1 << k) + d, 2**32 - 1)))
+    rng = R.rng("trap-uptimes")
+    pts.update(rng.randint(0, 2**32 - 1) for _ in range(120))
+    for t in sorted(pts):
+        vbs = [(trapview.UPTIME, ("tt", t)), (trapview.TRAPOID, ("oid", (1, 3, 6, 1, 4, 1, 4242, 0, 1))), ((1, 3, 6, 1, 4, 1, 4242, 2, 1), ("tt", 2**32 - 1 - t)), ((1, 3, 6, 1, 4, 1, 4242, 2, 2), ("c32", t))]
+        trapview.judge(R, vbs, "trap_uptimes_checked")
+    R.fingerprints.add("trap-uptimes")
+
+
+def copies(R):
+    """A value that was received (decoded lazily) or built locally is an ordinary Python
+    object: a copy, a deep copy and an unpickled copy (a result handed to a worker process,
+    kept in a cache) convert exactly like the original.  A copy operation that refuses is
+    not judged; one that succeeds and converts differently is."""
+    import copy
+    import pickle
+
+    rng = R.rng("copies")
+    cases = []
+    for tag, cls, width in ((0x43, TimeTicks, 32), (0x41, Counter, 32), (0x42, Gauge, 32), (0x46, Counter64, 64)):
+        pts = {0, 1, 99, 100, 2**31 - 1, 2**31, 2**width - 1} | {rng.randint(0, 2**width - 1) for _ in range(12)}
+        for n in sorted(pts):
+            cases.append((cls, ber.tlv(tag, ber.enc_int_content(n)), n))
+    for n in (0, 1, 0x7F000001, 2**32 - 1, rng.randint(0, 2**32 - 1)):
+        cases.append((IpAddress, ber.tlv(0x40, n.to_bytes(4, "big")), n))
+    for body in (b"", b"\x00", b"opaque-content"):
+        cases.append((Opaque, ber.tlv(0x44, body), body))
+    ways = (("copy", copy.copy), ("deepcopy", copy.deepcopy), ("pickle", lambda x: pickle.loads(pickle.dumps(x))), ("pickle-0", lambda x: pickle.loads(pickle.dumps(x, 0))))
+    for cls, raw, n in cases:
+        try:
+            received, _ = x690.decode(raw)
+            built = cls(received.value)
+            originals = (("received", received), ("built", built))
+            want = [(type(o), o.pythonize(), bytes(o)) for _, o in originals]
+        except Exception as exc:  # noqa: BLE001
+            R.violation({"kind": "copies"}, "%s %r could not be decoded/converted: %r" % (cls.__name__, raw, exc), None)
+            return
+        for (how, obj), w in zip(originals, want):
+            for name, fn in ways:
+                R.evaluations += 1
+                try:
+                    dup = fn(obj)
+                except Exception:  # noqa: BLE001 - refusing to be copied is not a wrong value
+                    R.mon["copies_refused"] += 1
+                    continue
+                try:
+                    got = (type(dup), dup.pythonize(), bytes(dup))
+                except Exception as exc:  # noqa: BLE001
+                    got = ("raised", repr(exc))
+                if got != w or not (dup == obj):
+                    R.violation({"kind": "copies"}, "%s of a %s %s (%r) converts to %r, the original to %r" % (name, how, cls.__name__, n, got, w), None)
+                    return
+                R.mon["copies_convert_alike"] += 1
+    R.fingerprints.add("copies")
+
+
 def replay(R, v):
     c = v["case"]
     k = c.get("kind")
+    if k == "copies":
+        copies(R)
+        return
+    if k == "trapview":
+        trapview.judge(R, trapview.vbs_of(c), "trap_uptimes_checked")
+        return
     if k in ("tt-pythonize", "tt-from-timedelta"):
         check_tick(R, c["t"])
     elif k == "tt-offgrid":
